@@ -43,6 +43,7 @@ def check(ctx):
     ctx.attempt(lockdown, ctx.repo.func('PLSSDesc.parse'), only=('layout', 'segment'))
     ctx.attempt(common.error_check_covers_all, ctx.repo.func('PLSSParser.check_error_tracts'))
     ctx.attempt(common.config_words, plss=('layout', 'segment'))
+    ctx.attempt(common.parallel_shapes, [f for f in ctx.repo.funcs.values() if f.module.name.endswith(('trs.trs',))])
 
 
 def _layout_lock(ctx, cl):
@@ -291,6 +292,11 @@ def _copyall(ctx):
     if not defs and isinstance(a[1], ast.AST) and one_elem(a[1]):
         single = True
     whole = bool(defs) and all(isinstance(v, ast.Call) and (dotted(v.func) or '').endswith('get_next_sec') for v in defs)
+    # a slice that keeps more than one element ([:2]) still stages several sections
+    wide = [v for v in defs if isinstance(v, ast.Subscript) and isinstance(v.slice, ast.Slice)
+            and norm(v.slice) not in (':1', '0:1')]
+    if wide:
+        whole = True
     if isinstance(a[1], ast.Attribute) and norm(a[1].value) == 'self':
         gns = ctx.repo.func('ChunkParser.get_next_sec')
         lists = {n.attr for n in ast.walk(gns.node) if isinstance(n, ast.Attribute) and isinstance(n.ctx, ast.Store)
